@@ -119,3 +119,79 @@ func ProbeTransformFlags(p *an.Prog) {
 		})
 	}
 }
+
+// ProbeArith lists integer divisions / remainders with a non-constant divisor, and map
+// updates whose map is loaded from a struct field or a global (development aid).
+func ProbeArith(p *an.Prog) {
+	nd, nm, ni, nic := 0, 0, 0, 0
+	for _, fn := range p.ModFuncs {
+		covered := map[ssa.Instruction]bool{}
+		for _, ob := range p.LookaheadAccesses(fn) {
+			covered[ob.Instr] = true
+		}
+		an.Instrs(fn, func(in ssa.Instruction) {
+			switch x := in.(type) {
+			case *ssa.BinOp:
+				if x.Op.String() != "/" && x.Op.String() != "%" {
+					return
+				}
+				if b, ok := x.X.Type().Underlying().(*types.Basic); !ok || b.Info()&types.IsInteger == 0 {
+					return
+				}
+				if _, isC := x.Y.(*ssa.Const); isC {
+					return
+				}
+				nd++
+				fmt.Printf("DIV %s | %s | %s\n", p.Position(x.Pos()), an.RelName(fn), an.Expr(x))
+			case *ssa.MapUpdate:
+				if _, ok := x.Map.(*ssa.MakeMap); ok {
+					return
+				}
+				nm++
+				fmt.Printf("MAPW %s | %s | %s\n", p.Position(x.Pos()), an.RelName(fn), an.Expr(x.Map))
+			case *ssa.IndexAddr:
+				ni++
+				if covered[in] {
+					nic++
+				} else {
+					fmt.Printf("IDX %s | %s | %s[%s]\n", p.Position(x.Pos()), an.RelName(fn), an.Expr(x.X), an.Expr(x.Index))
+				}
+			case *ssa.Index:
+				ni++
+				if covered[in] {
+					nic++
+				} else {
+					fmt.Printf("IDX %s | %s | %s[%s]\n", p.Position(x.Pos()), an.RelName(fn), an.Expr(x.X), an.Expr(x.Index))
+				}
+			case *ssa.Lookup:
+				if _, isMap := x.X.Type().Underlying().(*types.Map); isMap {
+					return
+				}
+				ni++
+				if covered[in] {
+					nic++
+				} else {
+					fmt.Printf("IDX %s | %s | %s[%s]\n", p.Position(x.Pos()), an.RelName(fn), an.Expr(x.X), an.Expr(x.Index))
+				}
+			case *ssa.Slice:
+				if x.Low == nil && x.High == nil {
+					return
+				}
+				ni++
+				if covered[in] {
+					nic++
+				} else {
+					lo, hi := "", ""
+					if x.Low != nil {
+						lo = an.Expr(x.Low)
+					}
+					if x.High != nil {
+						hi = an.Expr(x.High)
+					}
+					fmt.Printf("SLC %s | %s | %s[%s:%s]\n", p.Position(x.Pos()), an.RelName(fn), an.Expr(x.X), lo, hi)
+				}
+			}
+		})
+	}
+	fmt.Println("divisions", nd, "map writes (non-local)", nm, "index/slice", ni, "covered by A9", nic)
+}
